@@ -44,7 +44,7 @@ func main() {
 						out = append(out, fmt.Sprintf("%s\tassert\t%s\t%s", p.Pos(x.Pos()), p.FuncKey(fn), x.AssertedType))
 					}
 				case *ssa.BinOp:
-					if (x.Op == token.QUO || x.Op == token.REM) {
+					if x.Op == token.QUO || x.Op == token.REM {
 						if _, isC := x.Y.(*ssa.Const); !isC {
 							out = append(out, fmt.Sprintf("%s\tdiv\t%s\t%s", p.Pos(x.Pos()), p.FuncKey(fn), x.Y.Type()))
 						}
